@@ -1,10 +1,12 @@
 package sod
 
 import (
+	"bytes"
 	"encoding/json"
 	"errors"
 	"fmt"
 	"regexp"
+	"strconv"
 	"time"
 )
 
@@ -24,15 +26,19 @@ func (f *indexedField) MarshalJSON() ([]byte, error) {
 	return json.Marshal([]interface{}{f.Value, f.ObjectId})
 }
 
-func (f *indexedField) UnmarshalJSON(data []byte) error {
+func (f *indexedField) UnmarshalJSON(data []byte) (err error) {
 	var tuple []interface{}
-	if err := json.Unmarshal(data, &tuple); err != nil {
+
+	// numbers are decoded as json.Number because a float64
+	// (default for interface{}) cannot hold every 64 bits integer
+	dec := json.NewDecoder(bytes.NewReader(data))
+	dec.UseNumber()
+	if err = dec.Decode(&tuple); err != nil {
 		return err
 	}
 	f.Value = tuple[0]
-	// Json unmarshals integer to interface{} as float64
-	f.ObjectId = uint64(tuple[1].(float64))
-	return nil
+	f.ObjectId, err = strconv.ParseUint(tuple[1].(json.Number).String(), 10, 64)
+	return err
 }
 
 func (f *indexedField) String() string {
@@ -76,18 +82,24 @@ func newIndexedField(value interface{}, objid uint64) (*indexedField, error) {
 }
 
 func (f *indexedField) valueTypeFromString(t string) {
-	// we cast everything to float64 because json unmarshal interface{}
-	// to float64 and that is a current limitation of the indexing
+	var err error
+
+	// numbers have been unmarshaled as json.Number so
+	// that integers do not lose precision
 	switch t {
 	case "float64":
-		f.Value = f.Value.(float64)
+		f.Value, err = f.Value.(json.Number).Float64()
 	case "int64":
-		f.Value = int64(f.Value.(float64))
+		f.Value, err = f.Value.(json.Number).Int64()
 	case "uint64":
-		f.Value = uint64(f.Value.(float64))
+		f.Value, err = strconv.ParseUint(f.Value.(json.Number).String(), 10, 64)
 	case "string":
 	default:
 		panic(fmt.Errorf("%w %s", ErrUnknownKeyType, t))
+	}
+
+	if err != nil {
+		panic(err)
 	}
 }
 
